@@ -143,7 +143,7 @@ def gen_cases(out, tier):
     rng = core.rng("c20")
     cases: list[str] = []
     kept: dict[str, list] = {"grid": [], "scale": [], "affine": [], "bin": []}
-    mult = 1 if tier == "quick" else 8
+    mult = 1 if tier == "quick" else 12
 
     def add(kind, text, canon, nontrivial=True, sample=None):
         cases.append(text)
@@ -163,7 +163,7 @@ def gen_cases(out, tier):
             add("pow2", f"CPow2 {cz(x)} {cz(M.align_up_pow2(x))} {cz(M.align_down_pow2(x))}", x)
 
     # --- scalar helpers
-    for _ in range(500 * mult):
+    for _ in range(250 * mult):
         tol = rng.choice(TOLS)
         x = near_int(rng, tol)
         ftol = float(tol)
@@ -195,7 +195,7 @@ def gen_cases(out, tier):
         add("clampZ:" + kind, f"CClampZ {cz(x)} {cz(lo)} {cz(up)} {t}", (x, lo, up))
 
     # --- snap_scale
-    for i in range(500 * mult):
+    for i in range(300 * mult):
         tol = rng.choice(TOLS)
         ftol = float(tol)
         mode = rng.random()
@@ -231,7 +231,7 @@ def gen_cases(out, tier):
         add("pow2", f"CPow2 {cz(x)} {cz(M.align_up_pow2(x))} {cz(M.align_down_pow2(x))}", x)
 
     # --- one axis snapping
-    for i in range(1500 * mult):
+    for i in range(900 * mult):
         x0, x1, res, off, tol = grid_case(rng)
         which = i % 5
         if which == 0:
@@ -259,11 +259,12 @@ def gen_cases(out, tier):
             kept["grid"].append((x0, x1, res, off, tol))
 
     # --- affine snapping
-    for i in range(300 * mult):
+    for i in range(200 * mult):
         ttol, stol, tol = rng.choice([(1e-3, 1e-6, 1e-8), (2.0 ** -10, 2.0 ** -20, 2.0 ** -27), (0.25, 2.0 ** -7, 0.0),
                                       (2.0 ** -7, 2.0 ** -7, -1.0)])
         e = float(rng.choice(EPS))
-        wset = [0.0, 0.0, 0.0, tol, -tol, math.nextafter(tol, 1), -math.nextafter(tol, 1), math.nextafter(tol, -1), tol / 2, 0.5, -2.0, e * 2.0 ** -10]
+        up, dn = (math.nextafter(tol, 1), math.nextafter(tol, -1)) if tol != 0 else (2.0 ** -60, -(2.0 ** -60))   # no denormals: 1000-bit literals are slow to parse
+        wset = [0.0, 0.0, 0.0, tol, -tol, up, -up, dn, tol / 2, 0.5, -2.0, e * 2.0 ** -10]
         wx, wy = rng.choice(wset), rng.choice(wset)
 
         def sc():
@@ -313,7 +314,7 @@ def gen_cases(out, tier):
             return True
         return all(exactf.isrep(v) for v in vals) and exactf.isrep(rr) and exactf.isrep(rr / 2) and exactf.isrep(vals[0] - rr / 2)
 
-    for i in range(150 * mult):
+    for i in range(100 * mult):
         n = rng.choice([0, 1, 1, 2, 2, 3, 4, 5, 9, 17, 33])
         vals = axis(n)
         fb = rng.choice([None, None, 0.5, -30.0, 7.0])
@@ -343,7 +344,7 @@ def gen_cases(out, tier):
         add("axis:" + kind, f"CAxis {clist(vals, cq)} {clist(yv, cq)} {cf} {t}", (tuple(vals), tuple(yv), str(fres)))
 
     # --- Bin1D
-    for i in range(400 * mult):
+    for i in range(200 * mult):
         sz = abs(rand_res(rng, allow_zero=False)) if rng.random() < 0.93 else rng.choice([0.0, -1.0])
         a = F(sz) if sz > 0 else F(1)
         origin = float(F(rng.randint(-2 ** 12, 2 ** 12), 2 ** rng.randint(0, 4)) * a)
@@ -371,7 +372,7 @@ def gen_cases(out, tier):
 
     # --- decompose_rws / resolution_from_affine: right-angle rotations, power-of-two scales, dyadic shear
     rots = [((1, 0), (0, 1)), ((0, -1), (1, 0)), ((-1, 0), (0, -1)), ((0, 1), (-1, 0))]
-    for i in range(120 * mult):
+    for i in range(80 * mult):
         (ra, rb), (rc, rd) = rng.choice(rots)
         sx = rng.choice([1, -1]) * F(2) ** rng.randint(-6, 6)
         sy = rng.choice([1, -1]) * F(2) ** rng.randint(-6, 6)
@@ -388,7 +389,7 @@ def gen_cases(out, tier):
         tx, ty = float(rng.randint(-100, 100)), float(rng.randint(-100, 100))
         Af = Affine(float(A[0][0]), float(A[0][1]), tx, float(A[1][0]), float(A[1][1]), ty)
         t, kind = cres(lambda v: cqq(v.xy), lambda: M.resolution_from_affine(Af))
-        add("res_from_affine:" + kind, f"CResAff {caff(Af)} {t}", tuple(Af)[:6])
+        add("res_from_affine:" + kind, f"CResAff {caff(Af)} {cq(F(1e-10))} {t}", tuple(Af)[:6])
     return cases, kept
 
 
@@ -703,7 +704,7 @@ def run(out, tier, scratch):
         "numpy.linalg.cholesky/inv/det are exact on the right-angle/power-of-two inputs used for decompose_rws; numpy.linalg.lstsq (affine_from_pts, Poly2d) is an oracle validated numerically only",
     ]
     cases, kept = gen_cases(out, tier)
-    fails, log = core.coq_eval_failures(REQ, "case", "check", cases, scratch, shard=250)
+    fails, log = core.coq_eval_failures(REQ, "case", "check", cases, scratch, shard=400)
     detail = ""
     if fails:
         detail = "model and implementation differ on: " + " | ".join(cases[i] for i in fails[:5])
